@@ -2,6 +2,7 @@
 import collections, re
 from .. import build, core, genmod, bundle, gfind
 from . import c01
+from .. import c05_stream
 
 SYN = [("der", "ber"), ("oer", "oer"), ("xer", "xer"), ("cxer", "xer")]
 
@@ -31,6 +32,9 @@ def run(ctx):
                     if syn == "oer" and "ext:CHOICE" in feats: stats["skipped_F54"] += 1; continue
                     enc_lines.append(f"@{n} enc {syn} {sx}"); meta.append((n, syn, dsyn))
         outs, _ = ctx.run_c_bisect(exe, enc_lines)
+        # K leg of the streaming BER decoder model (Impl/BerStream.lean): C per-step trace vs model trace
+        c05_stream.run_stream(ctx, [(m, exe, [(n, bytes.fromhex(o[3:])) for (n, syn, _), o in zip(meta, outs)
+                                              if syn == "der" and o and o.startswith("ok ") and o[3:] != "-"])])
         lines, lmeta = [], []
         for (n, syn, dsyn), o in zip(meta, outs):
             if not (o and o.startswith("ok ")): continue
